@@ -195,8 +195,12 @@ fn file_case(rng: &mut Rng, out: &mut UnitResult, unit: u64, i: u64) {
                 0 => Val::Num(k as f64 + 0.5),
                 1 => Val::Str(format!("res{}", k)),
                 2 => Val::Bool(true),
-                _ => if fmt == "ods" { Val::Num(1.0) } else { Val::Err(ErrKind::Div0) },
+                _ => if fmt == "ods" { Val::Blank } else { Val::Err(ErrKind::Div0) },
             };
+            if fmt == "ods" && val == Val::Blank {
+                // a formula cell without a cached result
+                out.feat("ods:formula_without_cached_value");
+            }
             sh.cells.insert(p, MCell { val, xf: None, formula: Some(text.clone()) });
             exp.insert(p, text);
             asts.insert((si, p), e);
@@ -396,7 +400,7 @@ impl Prop for C14 {
         Some("column lettering: push_column for every column 0..16383".into())
     }
     fn mandatory(&self, _t: Tier) -> Vec<String> {
-        let mut v: Vec<String> = ["push_column_sweep", "file:xls", "file:xlsb", "file:xlsx", "file:ods", "defined_names:xls", "defined_names:xlsb", "formula_less_name"].iter().map(|s| s.to_string()).collect();
+        let mut v: Vec<String> = ["push_column_sweep", "file:xls", "file:xlsb", "file:xlsx", "file:ods", "defined_names:xls", "defined_names:xlsb", "formula_less_name", "ods:formula_without_cached_value"].iter().map(|s| s.to_string()).collect();
         for f in ["xls", "xlsb"] {
             for k in ["PtgRef", "PtgArea", "PtgRef3d", "PtgArea3d", "PtgName", "PtgInt", "PtgNum", "PtgStr", "PtgBool", "PtgErr", "PtgMissArg", "unary", "binary", "PtgParen", "PtgFunc", "PtgFuncVar", "PtgAttrSum"] {
                 v.push(format!("{}:{}", f, k));
